@@ -160,6 +160,10 @@ def conforms(spec, v):
         if not isinstance(v, _dt.date):
             return REJECT
         if type(v) is not _dt.date:
+            # a datetime passes the isinstance guard; whether a *bare* date schema should take it is left aside, but a
+            # fixed value decides: no datetime equals a date, and a datetime equals a fixed datetime value or it does not
+            if "value" in spec and type(v) is _dt.datetime and type(spec["value"]) is _dt.date:
+                return REJECT
             return DONTCARE
         return v == spec["value"] if "value" in spec else ACCEPT
     if t == "list":
